@@ -31,7 +31,9 @@ MANIFEST = {
             "and the cdf of non-negative probabilities is sorted. A CONSTRUCTED TAP003 (settings validator passed) fed well-formed responses (a failure "
             "carries data['reason'], a success the login data) NEVER RAISES, for every draw and response sequence of any length (invariant: next = "
             "successor(current); the knowledge covers every account-change host and ACL router once PLANNING has run, preserved by both password-"
-            "change updates; ACL index in range), hence it reaches every next execution slot without escape clause. RandomAgent returns the sampled entry of its action map. "
+            "change updates; ACL index in range), hence it reaches every next execution slot without escape clause; the same holds assuming only what the simulator's "
+            "two response construction sites give (do-nothing answered success; a successful remote login carries ip_address/username — tied by C19_gen_resp_wf_sites and "
+            "checked on every real response of the scenario sweep; nothing assumed of failed responses: in PLANNING the looked-back action is always a do-nothing). RandomAgent returns the sampled entry of its action map. "
             "The control methods _tap_outcome_handler, _tap_start, _tap_return_handler, _agent_trial_handler and both _progress_kill_chain are TRANSLATED "
             "statement by statement (Gen/AgentsCtl.lean) and proved equal to the model functions on every state (C19_gen_ctl_*: a meaning-preserving "
             "rewrite keeps them). Tie: enums, dispatch order, comparators, defaults, the "
